@@ -778,7 +778,7 @@ pub fn run(tier: Tier, seed: u64) -> ! {
         "deviation_rules_on".into(),
         json!(eval::RULE_IDS.iter().filter(|x| dev.on(x.0)).map(|x| format!("{} ({:?})", x.1, x.0)).collect::<Vec<_>>()),
     );
-    let n: u64 = std::env::var("C11_CASES").ok().and_then(|s| s.parse().ok()).unwrap_or(tier.pick(4000, 90_000));
+    let n: u64 = std::env::var("C11_CASES").ok().and_then(|s| s.parse().ok()).unwrap_or(tier.pick(10_000, 90_000));
     let nhuge: u64 = std::env::var("C11_HUGE").ok().and_then(|s| s.parse().ok()).unwrap_or(tier.pick(64, 1500));
     let th = threads();
     let merge11 = |rep: &mut Report, mut out: CaseOut| {
